@@ -469,8 +469,13 @@ Fixpoint cyclic_f (stop_falsy : bool) (fuel : nat) (g : graph) (c : term) (seen 
       | Some r => if memb N.eqb r seen then Some true else cyclic_f stop_falsy f g r (r :: seen)
       end
   end.
-Definition cyclic (stop_falsy : bool) (g : graph) (head : term) : bool :=
-  match cyclic_f stop_falsy (fuel_of g) g head [head] with Some b => b | None => true end.
+(* the chain Graph.items walks (it stops at a falsy node) is cyclic *)
+Definition cyclic_iter (g : graph) (head : term) : bool :=
+  match cyclic_f true (fuel_of g) g head [head] with Some b => b | None => false end.
+(* the rest links loop (index() does not stop at falsy nodes); out of fuel
+   counts as looping, so that the trigger below errs on the safe side *)
+Definition cyclic_rest (g : graph) (head : term) : bool :=
+  match cyclic_f false (fuel_of g) g head [head] with Some b => b | None => true end.
 
 Definition is_exc (r : res) : bool := match r with RExc _ => true | _ => false end.
 Definition is_hang (r : res) : bool := match r with RHang => true | _ => false end.
@@ -479,7 +484,7 @@ Definition is_hang (r : res) : bool := match r with RHang => true | _ => false e
 Definition r_ok (g : graph) (o : op) (r : res) : bool :=
   negb (is_hang r)
   && match o with
-     | OIter | OLen => if cyclic true g HEAD then is_exc r else true
+     | OIter | OLen => if cyclic_iter g HEAD then is_exc r else true
      | _ => true
      end.
 Fixpoint r_run (g : graph) (ops : list op) (obs : list res) : bool :=
@@ -494,6 +499,6 @@ Definition r_wfb (c : rcase) : bool := forallb is_read (r_ops c).
 
 (* trigger 1 (F3c): index() on a chain whose rest links loop *)
 Definition r_kf (c : rcase) : N :=
-  if cyclic false (r_graph c) HEAD
+  if cyclic_rest (r_graph c) HEAD
      && existsb (fun o => match o with OIndex _ => true | _ => false end) (r_ops c)
   then 1%N else 0%N.
